@@ -170,14 +170,14 @@ def run(chk, failed):
         "expired/too_old: (now - expire-group) * 1000 is int64 arithmetic; theorems expired_spec/too_old_spec hold under in_i64((now-expire)*1000), "
         "the example C09_expiry_guard_needed shows the wrap outside it; generated expire-group values go up to the edge of that guard "
         "(now0 + 2^63 div 1000), never beyond",
-        "consumerGroup.lastCommit is the timestamp of the last APPENDED commit of any partition, not of the newest commit: a group "
-        "with commits on both sides of the cut-off can be purged early — known finding C09:lastcommit-not-monotone "
-        "(C09_not_expired_but_purged_refuted; proved instead: C09_purged_iff_last_appended_expired_partial); the expiry oracle reports "
-        "it through that classifier and treats the all-recent / all-old cases as hard failures",
+        "consumerGroup.lastCommit is (since fix 989bf1d) the largest timestamp among the commits the group's rings stored and never "
+        "decreases (C09_g_last_after_commit, C09_g_last_monotone); not-found <-> lastCommit older than the cut-off "
+        "(C09_purged_iff_newest_commit_expired_partial; not proved: the state invariant `every stored timestamp <= lastCommit`); the expiry "
+        "oracle demands: all sent commits old => not found; a stored commit inside the expiry time seen in an earlier reply and no deletion "
+        "since => reported",
         "a group left without topics: delete-topic keeps it listed (empty); delete-group-topic of its last topic removes it (documented "
-        "mechanism, accepted); delete-group-topic of a topic it does NOT consume removes an already empty group — known finding "
-        "C09:empty-group-foreign-topic-delete (C09_delete_foreign_topic_unlists_group_refuted), reported through that classifier when the "
-        "bracket shows that the group did not consume the topic",
+        "mechanism, accepted); delete-group-topic of a topic it does not consume changes nothing (fix c5037b9, "
+        "C09_delete_foreign_topic_changes_nothing) - a hard failure of the oracle when the bracket shows the group did not consume the topic",
         "status requests are not part of this tie: the evaluator answers from its cache for up to expire-cache seconds after a deletion "
         "(composition with C05); the HTTP level is observed by C16's end-to-end case and C17",
     ]
